@@ -799,6 +799,11 @@ mod sync {
                                         None       => lock.push((current_id, current_waker)),
                                     }
                                 }
+                                if CATCH.load(Ordering::SeqCst) {
+                                    /* interrupted after the check above and before the waker was published:
+                                       the handler found no waker (or a stale one) and nobody will wake this task */
+                                    return Poll::Ready(None)
+                                }
                                 #[cfg(ohkami_verif)] crate::__verif__::sched("p.pending");
                                 Poll::Pending
                             }
